@@ -476,3 +476,42 @@ func checkOpcodeOperandsPrinted(c *core.Ctx) {
 		}
 	}
 }
+
+// checkDSDestinationPrinted (R04.34): a DS instruction that returns a value (DSTWidth > 0 in its
+// decode-table row: reads, returning atomics, swizzle / permute) has a destination VGPR, which the
+// decoder fills from the instruction word; the printer names it only for the opcodes of its own
+// list. Both are resolved per row: the printer function of the DS format, followed for the row's
+// opcode, has to read Inst.Dst.
+func checkDSDestinationPrinted(c *core.Ctx, t *InstTables) {
+	st := c.Rule("R04.34", "a DS instruction with a destination (DSTWidth > 0 in its decode-table row) is printed with it: the DS printer function, followed for the row's opcode with its opcode tests decided (opReach), reads Inst.Dst. Otherwise ds_add_rtn_u32 v0, v1, v2 prints as ds_add_rtn_u32 v1, v2 and instructions that differ in the destination print alike", 10)
+	prt := c.SSAFunc(instsPkg, "InstPrinter.dsString")
+	if prt == nil {
+		c.Report(core.Finding{Rule: "R04.34", Kind: "anchor", Pkg: instsPkg, Func: "InstPrinter.dsString", Detail: "anchor", Msg: "dsString not found"})
+		return
+	}
+	isOpc := isLoadOfField("Opcode")
+	seen := map[int64]bool{}
+	for _, r := range t.Rows {
+		if r.Format != "DS" || r.Widths[0] <= 0 || seen[r.Opcode] {
+			continue
+		}
+		seen[r.Opcode] = true
+		st.Instances++
+		c.MarkAnalysed(prt)
+		reads := false
+		for _, b := range opReach(prt, isOpc, r.Opcode) {
+			for _, in := range b.Instrs {
+				if u, ok := in.(*ssa.UnOp); ok && u.Op == token.MUL {
+					if fa, ok := u.X.(*ssa.FieldAddr); ok && fieldNameOf(fa) == "Dst" && strings.HasSuffix(namedTypeName(fa.X.Type()), "insts.Inst") {
+						reads = true
+					}
+				}
+			}
+		}
+		st.Ob(reads)
+		if !reads {
+			c.Report(core.Finding{Rule: "R04.34", Pkg: instsPkg, Func: "InstPrinter.dsString", Detail: fmt.Sprintf("ds-destination-not-printed:%s", strings.TrimSpace(r.Name)), Pos: c.Position(r.Pos),
+				Msg: fmt.Sprintf("%s (DS opcode %d) has a destination (DSTWidth %d) that the decoder fills, but dsString does not print Inst.Dst for that opcode: the disassembly lacks the destination register", strings.TrimSpace(r.Name), r.Opcode, r.Widths[0])})
+		}
+	}
+}
